@@ -382,7 +382,7 @@ def fmt(h):
 
 def run(ctx):
     quick = ctx.tier == "quick"
-    depth = 6 if quick else 7
+    depth = 5 if quick else 7
     nsh = 4 if quick else 8
     items = []
     for kind in KINDS:
@@ -391,7 +391,7 @@ def run(ctx):
         if quick:
             # code-object swaps (and the moved definition v4) at a smaller depth
             for sh in range(nsh):
-                items.append((kind, depth, "swap", sh, nsh, 4000))
+                items.append((kind, depth + 1, "swap", sh, nsh, 4000))
     states = trans = 0
     maxd = 0
     k = 0
